@@ -40,7 +40,6 @@ import (
 
 var run *vk.Run
 var stopProfile = func() {}
-var debugPend = os.Getenv("C08_DEBUG_PEND") != ""
 
 // ---------------------------------------------------------------------------------------------
 // commands
@@ -860,13 +859,6 @@ func judge(st *state, o op, resps []srvkit.Resp, closed bool, pr *probeResult, l
 		ss.heldBack++
 	}
 
-	if debugPend && ok && !o.noExpunge() && o.K != kIdle && o.K != kAppend && o.K != kSelect && len(s.Pend) > 0 {
-		fmt.Fprintf(os.Stderr, "DEBUG owed after full poll: %s -> %s\n", o, pendString(s.Pend))
-		for _, r := range resps {
-			fmt.Fprintf(os.Stderr, "    %s\n", strings.TrimRight(string(r.Raw), "\r\n"))
-		}
-	}
-
 	// ---- each removed message is reported exactly once ----
 	if expN > owedX {
 		if o.K == kMove || o.K == kUIDMove {
@@ -1357,9 +1349,6 @@ func (s *search) expand(n *node, idx int, maxDepth int, ss *stepStats) {
 		st2, per := execute(s.cfg, h, n.st, len(h)-1, nil, ss)
 		atomic.AddInt64(&s.trans, 1)
 		fs := per[len(h)-1]
-		if debugPend && o.K == kNoop && len(st2.S[o.S].Pend) > 0 {
-			fmt.Fprintf(os.Stderr, "DEBUGH %s\n", histString(h))
-		}
 		c := &node{parent: n, op: o, depth: n.depth + 1, total: n.total + 1, st: st2, resync: n.resync, order: uint64(idx)<<8 | uint64(j), rootIdx: n.rootIdx}
 		if len(fs) > 0 {
 			s.record(fs, h, c)
